@@ -96,6 +96,14 @@ def c03_2(R):
       "Every Poll::Ready exit of VirtualSocket::poll is dominated by a call to just_before_death (audited exception: the BugUnreachable fall-through after the loop); just_before_death calls "
       "user_rx.mark_vsock_closed and user_tx.mark_vsock_closed on every path, and with Some(err) calls enqueue_error before mark_vsock_closed; Drop for VirtualSocket (cancellation) calls both as well.")
 def c03_3(R):
+    # the two "the connection is gone" markers really mark: the flag is set whenever it was not set yet
+    for fn, fld in (("stream_rx::UserRx::mark_vsock_closed", "UserRxSharedLocked.vsock_closed"), ("stream_tx::UserTxLocked::mark_vsock_closed", "UserTxLocked.vsock_closed")):
+        mb = R.body(fn)
+        ws = [s_ for s_ in mb.stmts() if written_field(mb, s_) == fld and s_.rv.kind == "use" and s_.rv.ops[0].kind == "const" and s_.rv.ops[0].scalar == 1]
+        if ws and not any(d == "field:%s=true" % fld for s_ in ws for c, truth, d, *_ in controlling(mb, s_.bb)):
+            R.ok("closed-marker-marks", fn.split("::")[-2] + "::mark_vsock_closed", "%s = true unless already set" % fld.split(".")[1])
+        else:
+            R.fail([fn, "vsock_closed-not-set-when-open"], "%s no longer sets the closed flag when the half is still open: the user half is never told that the connection ended (reads/writes hang)" % fn.split("::", 1)[1], where=mb.where(), instance="closed-marker-marks")
     poll = R.body(VS + "::poll")
     jbd = [t.bb for t in poll.calls() if call_matches(t, ("VirtualSocket::just_before_death",))]
     R.floor("just_before_death call sites in poll", len(jbd), 9)
